@@ -52,6 +52,9 @@ EXPLANATION += " A module function the cascade calls as a bare statement (a proc
 TECHNIQUE += '; evaluation of the correction helpers per shell type and contraction length'
 EXPLANATION += ' R5: every helper that returns a factor vector is interpreted on a one-shell basis for every shell type; the vector must have one entry per function. R7: a path that bypasses the correction is accepted only if, evaluated on contractions of 1, 2 and 3 primitives per type, the helper rescales the same shell types each time and each touched shell as a whole (the bypass depends on the shell type only).'
 # --- end metadata round-4 twins
+# --- metadata added for batch 9
+EXPLANATION += ' Added: (R16) every orbital of a Molden [MO] section goes to the spin block its own Spin= label names (section reader on a model stream with alpha, beta, alpha).'
+# --- end metadata batch 9
 
 
 def static_len(e):
